@@ -367,6 +367,15 @@ def run_item(item):
         sets['state_transitions'] = engine.transitions(res.trace)
     if not ok:
         key = 'c01:' + what.split(' (')[0][:60]
+        if isinstance(exp, (tuple, list)) and len(exp) == 2 and exp[0] in '-+ ' and not str(exp[1]).strip():
+            # the matcher failed at an empty hunk line: empty lines, separators and header-less hunk headers all render as
+            # empty rows, and the walk can take a wrong turn there. Decide on the lines that have text: they must all be
+            # there, in order, with their kinds; then the remaining doubt is about empty rows only
+            want = [(k, expected_text(k, t, meta)) for s_ in d.sections for h in s_.hunks for k, t in h.lines if k in '-+ ' and t.strip()]
+            got = [(list(i.code_kinds)[0], i.code) for i in rows.classify_all(res.out) if i.kind == 'code' and len(i.code_kinds) == 1 and i.code.strip()]
+            if len(want) == len(got) and all(a[0] == b[0] and b[1].rstrip(' ').startswith(a[1].rstrip(' ')[:len(b[1].rstrip(' ').rstrip('→'))] or '\x00')
+                                             for a, b in zip(want, got)):
+                return inconclusive('walk over empty rows ambiguous; every line that has text is present once, in order, with its kind', sets=sets)
         return violated(key, what, exp, obs, run=res, counters=counters, sets=sets)
     nontrivial = any(k in '-+' for s in d.sections for h in s.hunks for k, _ in h.lines)
     sample = {'args': gen.to_args(opts)[-8:], 'input_head': d.lines()[:8], 'rows': counters['rows'],
